@@ -128,7 +128,7 @@ def run_text_shard(sh, res):
                     res.outcome(repr(base)[:80])
 
 
-BYTE_SAMPLES = ['é,€\n', '\U0001F600"x"\r\n', '﻿a,b\r\nc', '"é\r\n€",z\n', 'é\r', '\r\n\r\né', 'ж#\n#ж\n', '"\U0001F600""\r"\n', '﻿#é\n€', 'a é\r\nж  b']
+BYTE_SAMPLES = ['é,€\n', '\U0001F600"x"\r\n', '﻿a,b\r\nc', '"é\r\n€",z\n', 'é\r', '\r\n\r\né', 'ж#\n#ж\n', '"\U0001F600""\r"\n', '﻿#é\n€', 'a é\r\nж  b', 'x\ufffd,\ufffd\n']
 
 
 def run_byte_shard(sh, res):
